@@ -25,13 +25,25 @@ type Analyzer struct {
 	// BufCall classifies a call that receives tracked buffer `arg`; for Fill it
 	// also names the source id the bytes get.
 	BufCall func(call ssa.CallInstruction, arg ssa.Value) (Effect, int)
+	// AllocCall (optional) recognises a call whose result 0 is a FRESH []byte of
+	// `size` bytes completely filled from source `src` (a helper that allocates
+	// and reads: func readN(n int) ([]byte, error)). The extracted result is
+	// then a tracked buffer.
+	AllocCall func(call ssa.CallInstruction) (size ssa.Value, src int, ok bool)
 	// InModule: helpers of the analysed module may be inlined one level.
 	InModule func(fn *ssa.Function) bool
 	// Why collects the reasons for every ⊤ produced (diagnostics only).
 	Why []string
 
-	roots map[ssa.Value]*rootInfo
+	roots map[rootKey]*rootInfo
 	reach map[[2]*ssa.BasicBlock]bool
+}
+
+// rootKey: the writers of an allocation are described by closures over the
+// frame that owns it, so a helper inlined at two call sites has two entries.
+type rootKey struct {
+	f    *Frame
+	root ssa.Value
 }
 
 func (a *Analyzer) why(format string, args ...any) {
@@ -64,7 +76,7 @@ type Frame struct {
 
 func (a *Analyzer) Root(fn *ssa.Function) *Frame {
 	if a.roots == nil {
-		a.roots = map[ssa.Value]*rootInfo{}
+		a.roots = map[rootKey]*rootInfo{}
 		a.reach = map[[2]*ssa.BasicBlock]bool{}
 	}
 	return &Frame{A: a, Fn: fn, memo: map[ssa.Value]Vec{}, kids: map[*ssa.Call]*Frame{}}
@@ -289,6 +301,14 @@ func (f *Frame) Region(v ssa.Value) (Region, bool) {
 		}
 	case *ssa.ChangeType:
 		return f.Region(x.X)
+	case *ssa.Extract:
+		if size, _, ok := f.allocCall(x); ok {
+			n := Open
+			if k, isK := constIdx(size, 0); isK && size != nil {
+				n = k
+			}
+			return Region{F: f, Root: x, Off: 0, N: n}, true
+		}
 	case *ssa.Parameter:
 		if arg, pf := f.bound(x); pf != nil {
 			if !paramReadOnly(x) {
@@ -341,6 +361,93 @@ func paramReadOnly(p ssa.Value) bool {
 	}
 	walk(p, 0)
 	return ok
+}
+
+// arrayBytes describes a byte-ARRAY value (not a pointer or slice): the
+// whole-array load of a tracked local array, or an array parameter of an
+// inlined helper (bound to such a load in the caller). The bytes are those the
+// source array held when the value was loaded.
+func (f *Frame) arrayBytes(v ssa.Value, d int) (func(i int) Vec, bool) {
+	if d > 4 {
+		return nil, false
+	}
+	if _, ok := byteArrayLenOfValue(v.Type()); !ok {
+		return nil, false
+	}
+	switch x := v.(type) {
+	case *ssa.ChangeType:
+		return f.arrayBytes(x.X, d+1)
+	case *ssa.Parameter:
+		if arg, pf := f.bound(x); pf != nil {
+			return pf.arrayBytes(arg, d+1)
+		}
+	case *ssa.UnOp:
+		if x.Op != token.MUL {
+			return nil, false
+		}
+		reg, ok := f.Region(x.X)
+		if !ok || reg.N == Open {
+			return nil, false
+		}
+		return func(i int) Vec { return f.ByteAt(reg, i, x) }, true
+	case *ssa.Call:
+		// an in-module helper that returns the array by value
+		callee := x.Common().StaticCallee()
+		if callee == nil || !f.A.inlinable(callee) || f.depth >= 2 || callee.Signature.Results().Len() != 1 {
+			return nil, false
+		}
+		cf := f.child(callee, x)
+		var alts []func(i int) Vec
+		for _, b := range callee.Blocks {
+			ret, ok := b.Instrs[len(b.Instrs)-1].(*ssa.Return)
+			if !ok {
+				continue
+			}
+			bytesOf, ok := cf.arrayBytes(ret.Results[0], d+1)
+			if !ok {
+				return nil, false
+			}
+			alts = append(alts, bytesOf)
+		}
+		if len(alts) == 0 {
+			return nil, false
+		}
+		return func(i int) Vec {
+			out := alts[0](i)
+			for _, a := range alts[1:] {
+				if !out.Equal(a(i)) {
+					f.A.why("helper %s returns arrays with different contents", callee.Name())
+					return TopVec(8)
+				}
+			}
+			return out
+		}, true
+	}
+	return nil, false
+}
+
+func byteArrayLenOfValue(t types.Type) (int, bool) {
+	a, ok := t.Underlying().(*types.Array)
+	if !ok {
+		return 0, false
+	}
+	b, ok := a.Elem().Underlying().(*types.Basic)
+	if !ok || b.Kind() != types.Uint8 || a.Len() > 4096 {
+		return 0, false
+	}
+	return int(a.Len()), true
+}
+
+// allocCall: ex is result 0 of a call the client classified as an allocating reader.
+func (f *Frame) allocCall(ex *ssa.Extract) (ssa.Value, int, bool) {
+	if f.A.AllocCall == nil || ex.Index != 0 {
+		return nil, 0, false
+	}
+	call, ok := ex.Tuple.(*ssa.Call)
+	if !ok {
+		return nil, 0, false
+	}
+	return f.A.AllocCall(call)
 }
 
 type writer struct {
@@ -417,15 +524,22 @@ func (an *Analyzer) mayPrecede(a, b ssa.Instruction) bool {
 
 // collect enumerates everything that can write the root allocation.
 func (f *Frame) collect(root ssa.Value) *rootInfo {
-	if ri := f.A.roots[root]; ri != nil {
+	if ri := f.A.roots[rootKey{f, root}]; ri != nil {
 		return ri
 	}
 	ri := &rootInfo{}
-	f.A.roots[root] = ri
+	f.A.roots[rootKey{f, root}] = ri
 	n := Open
 	spare := true // may an append to a window that reaches the end of the root write in place?
 	if mk, isMk := root.(*ssa.MakeSlice); isMk {
 		spare = mk.Cap != mk.Len
+	} else if ex, isEx := root.(*ssa.Extract); isEx {
+		// a fresh buffer returned by an allocating reader: capacity unknown
+		if size, _, ok := f.allocCall(ex); ok {
+			if k, isK := constIdx(size, 0); isK && size != nil {
+				n = k
+			}
+		}
 	} else {
 		n, _ = byteArrayLen(root.Type())
 		spare = false
@@ -492,6 +606,10 @@ func (f *Frame) collect(root ssa.Value) *rootInfo {
 					if k, isK := x.Val.(*ssa.Const); isK && k.Value == nil {
 						ri.writers = append(ri.writers, writer{at: x, lo: vw.off, hi: end(vw.off, vw.n),
 							val: func(int) Vec { return ZeroVec(8) }, what: "zeroing store"})
+					} else if bytesOf, ok := f.arrayBytes(x.Val, 0); ok && vw.n != Open {
+						off := vw.off
+						ri.writers = append(ri.writers, writer{at: x, lo: vw.off, hi: end(vw.off, vw.n), what: "whole-array copy",
+							val: func(i int) Vec { return bytesOf(i - off) }})
 					} else {
 						ri.writers = append(ri.writers, writer{at: x, lo: vw.off, hi: end(vw.off, vw.n), what: "whole-array store"})
 					}
@@ -726,6 +844,11 @@ func (f *Frame) ByteAt(reg Region, i int, at ssa.Instruction) Vec {
 		}
 	}
 	if last == nil {
+		if ex, isEx := reg.Root.(*ssa.Extract); isEx {
+			if _, src, ok := reg.F.allocCall(ex); ok {
+				return SrcByte(src, abs) // filled by the helper that allocated it
+			}
+		}
 		return ZeroVec(8) // allocations are zero-initialised
 	}
 	if last.val == nil {
